@@ -1,8 +1,9 @@
 ----------------------------- MODULE MC_Scalars -----------------------------
 (***************************************************************************)
 (* Bounded design check and test generation for Scalars.tla.               *)
-(* One state = one (context, text): Next appends one character, so TLC     *)
-(* enumerates every text over Alpha up to MaxLen in every context of the   *)
+(* One state = one (context, text): Next appends one character (or one     *)
+(* macro-symbol), so TLC enumerates every text over Alpha up to MaxLen      *)
+(* characters in every context of the                                      *)
 (* configured family.  res maps every style choose_scalar_style can return *)
 (* for this text in this context (over all style requests and implicit     *)
 (* flags) to the outcome of Write ; follow-up ; Scan.                      *)
@@ -13,7 +14,7 @@
 (***************************************************************************)
 EXTENDS Scalars
 
-CONSTANTS Alpha,        \* set of code points
+CONSTANTS Alpha,        \* set of code points and macro-symbols (see Chunk)
           MaxLen,
           Kinds,        \* context kinds, see Cx
           Bests,        \* best_indent values
@@ -22,6 +23,12 @@ CONSTANTS Alpha,        \* set of code points
           Unis,         \* allow_unicode values
           LBs,          \* subset of {"n", "r", "rn"}
           Reqs          \* style requests: subset of {"none","single","double","literal","folded"}
+
+\* macro-symbols: lexemes that matter as a whole and that a bound on single characters would reach too late -
+\* the document markers as words inside a scalar
+DOTS == 900001
+DASHES == 900002
+Chunk(c) == IF c = DOTS THEN <<46, 46, 46>> ELSE IF c = DASHES THEN <<45, 45, 45>> ELSE <<c>>
 
 VARIABLES text, cx, res
 vars == <<text, cx, res>>
@@ -77,7 +84,7 @@ Eval(t, c) ==
 
 Init == text = <<>> /\ cx \in CtxSet /\ res = Eval(<<>>, cx)
 Next == /\ Len(text) < MaxLen
-        /\ \E c \in Alpha : LET t == Append(text, c) IN text' = t /\ res' = Eval(t, cx)
+        /\ \E c \in Alpha : LET t == text \o Chunk(c) IN Len(t) <= MaxLen /\ text' = t /\ res' = Eval(t, cx)
         /\ cx' = cx
 Spec == Init /\ [][Next]_vars
 
